@@ -19,8 +19,9 @@
      created nodes carried when they were handed out. *)
 From Coq Require Import List NArith ZArith Bool String.
 From stdpp Require Import pmap.
-From OV Require Import Base.Bytes Base.Tree Model.Heap
-  Proofs.HeapIds Proofs.HeapTree Proofs.HeapOps Proofs.HeapRep Proofs.Heap Proofs.HeapReader Proofs.HeapCheck.
+From OV Require Import Base.Bytes Base.Tree Model.Stream Model.Heap Model.HeapReaders
+  Proofs.HeapIds Proofs.HeapTree Proofs.HeapOps Proofs.HeapRep Proofs.Heap Proofs.HeapReader Proofs.HeapCheck
+  Proofs.HeapPay Proofs.HeapZip Proofs.HeapPrims Proofs.HeapReaders Proofs.HeapReadersJson.
 Import ListNotations.
 
 (* (1) Refinement: an operation whose API precondition holds never panics, never runs out of
@@ -119,6 +120,47 @@ Theorem reader_slot_no_double_release : forall cs,
   let rm := snd (reader_run (mkR None None) cs) in
   NoDup rm /\ (forall r, r ∈ rm -> r ∈ deliveries cs).
 Proof. exact reader_slot_pf. Qed.
+
+(* (5) readers_respect_api, stream readers.  Model/HeapReaders.v executes the XML / JSON stream
+   reader models of Model/Stream.v (C04, C17) on the node heap: the reader's right-spine zipper is
+   kept with addresses, every structural action is issued as the idr API call the Go code makes
+   (CreateXMLNode/CreateJSONNode + AddChild; RemoveAndReleaseTree of the rejected or released
+   stream node), through [do_op], which stops (None) if the call's precondition [pre_b] is false in
+   the state it is issued in or the call does not return normally.
+   For every target (pm, pred, filter flags), every token list, every Release pattern, pooling on
+   or off, every legal pool chooser, and every good start state (any reachable state is good):
+   the run never stops; the final state is good (Rep holds); [ext]: the logged calls, replayed
+   by run2 - which checks pre_b before each call - lead from the start state to the final one;
+   and [deliv_ok]: at each delivery the state is good, the delivered node's addressed subtree is
+   live, tree_ok (all links sound), and its payload tree read from the heap IS the abstract
+   Base.Tree tree the reader model delivers.  This is what licenses the abstract trees used by
+   the other models. *)
+Theorem reachable_is_good : forall caching s F acq log,
+  reachable caching s F acq -> good caching (mkM s F acq log).
+Proof. exact reachable_good_pf. Qed.
+
+Theorem xml_reader_respects_api : forall pm pred hf oc caching choose,
+  legal caching choose ->
+  forall m0 rel toks, good caching m0 ->
+  exists r0 r' ds,
+    reader_init caching choose m0 (FXml [] []) = Some r0 /\
+    hx_run pm pred hf oc caching choose x_init r0 rel toks = Some (r', ds) /\
+    good caching (r_m r') /\ ext caching m0 (r_m r') /\
+    Forall2 (deliv_ok caching) ds (map fst (fst (xrun pm pred hf oc x_init rel toks))).
+Proof. exact xml_reader_pf. Qed.
+
+(* The JSON reader additionally writes FormatSpecific of the current node directly
+   (sp.cur.FormatSpecific = JSONTypeOf(sp.cur) | JSONObj): not an API call, so there is no call
+   log statement; the write keeps Rep (rep_set_fs) and the simulation. *)
+Theorem json_reader_respects_api : forall pm pred hf oc caching choose,
+  legal caching choose ->
+  forall m0 rel toks, good caching m0 ->
+  exists r0 r' ds,
+    reader_init caching choose m0 (FJson 1) = Some r0 /\
+    hj_run pm pred hf oc caching choose j_init r0 rel toks = Some (r', ds) /\
+    good caching (r_m r') /\
+    Forall2 (deliv_ok caching) ds (map fst (fst (jrun pm pred hf oc j_init rel toks))).
+Proof. exact json_reader_pf. Qed.
 
 (* ---- non-vacuity ------------------------------------------------------------------------------ *)
 (* A history that builds a tree, removes a middle subtree (two nodes are reset and pooled) and
